@@ -30,7 +30,7 @@ impl Transport {
 		});
 		Self {
 			position: if reverse {
-				num_frames - 1 - start_position
+				num_frames.saturating_sub(1).saturating_sub(start_position)
 			} else {
 				start_position
 			},
